@@ -24,6 +24,7 @@ func init() {
 		recoveryOnly := map[string]string{
 			"(*recovery/log_recovery.LogRecovery).Redo": "recovery: single-threaded, before any user transaction",
 			"(*recovery/log_recovery.LogRecovery).Undo": "recovery: single-threaded, before any user transaction",
+			"samehada.greatestLSNOfTablePages":          "start-up: walks the table heaps before logging is activated and before any other goroutine exists",
 		}
 		lt := w.LockTable()
 		nCalls := 0
@@ -84,9 +85,13 @@ func init() {
 		r.Floor("TablePage content method calls examined", nCalls, 15)
 		// recovery-only functions are called only from start-up / tests
 		for k := range recoveryOnly {
-			parts := strings.Split(strings.TrimSuffix(strings.TrimPrefix(k, "(*recovery/log_recovery.LogRecovery)."), ")"), ".")
-			m := parts[len(parts)-1]
-			wmc(w, r, "LogRecovery."+m, map[*types.Func]bool{w.MethodObj("recovery/log_recovery", "LogRecovery", m): true}, map[string]string{"samehada.NewSamehadaDB": "start-up, before logging is activated"}, 1)
+			f := w.fnByKey(k)
+			if f == nil {
+				r.Note(k+":recovery-only-absent", "exempt function does not exist on this tree", "")
+				continue
+			}
+			fo, _ := f.Object().(*types.Func)
+			wmc(w, r, "start-up only: "+k, map[*types.Func]bool{fo: true}, map[string]string{"samehada.NewSamehadaDB": "start-up, before logging is activated"}, 1)
 		}
 		// pool I/O on resident pages: Data()/GetData() of a page inside package buffer needs b.mutex or the page latch
 		hs := w.bpmHelpers()
